@@ -18,7 +18,8 @@ TECHNIQUE = "runtime metamorphic monitor: template call vs textual substitution,
 RULE = ("random templates with {p} in positional/keyword/list/scalar-initialiser/array-element/whole-array/loop-body positions and adversarial "
         "names; random finite generic values (2-D lists for whole-array parameters); instance compared with the loaded substituted script "
         "(operations and variables, relative 1e-8 on well-conditioned values); parameter set, is_template, no parameters left, missing "
-        "value -> ValueError; non-trivial = at least 2 distinct parameters in at least 2 kinds of position; distinct by SHA-1 of text+values")
+        "value -> ValueError; non-trivial = at least 2 distinct parameters in at least 2 kinds of position; distinct by SHA-1 of text+values"
+        '; every 25th case an integer base raised to elements of a whole-array parameter (Python and NumPy values); parameters inside int arrays get integer values')
 BUDGET = {"quick": 3000, "thorough": 40000}
 MIN_NONTRIVIAL = {"quick": 300, "thorough": 3000}
 REQUIRED_FUNCTIONS = ["program.py:BlackbirdProgram.__call__", "program.py:BlackbirdProgram.is_template", "listener.py:BlackbirdListener.exitProgram"]
